@@ -7,16 +7,12 @@ import DmrVerif.Lemmas.Mbxml
 namespace Dmr.Mbxml
 
 theorem lor_sign : ∀ b, b < 256 → b / 64 % 2 = 0 → Nat.lor b 64 = b + 64 := by decide +kernel
+theorem lor_sign' (b : Nat) (h : b < 256) (h6 : b / 64 % 2 = 0) : b ||| 64 = b + 64 := lor_sign b h h6
 
 theorem readUGo_cons_flag (b : Nat) (t : Bytes) (acc : Nat) (h : 128 ≤ b ∧ b < 256) :
-    readUGo (b :: t) acc = match readUGo t (acc * 128 + b % 128) with
-      | .ok (v, n) => .ok (v, n + 1)
-      | .error e => .error e := by
+    readUGo (b :: t) acc = bump 1 (readUGo t (acc * 128 + b % 128)) := by
   have : ¬ (b / 128 % 2 = 0) := by omega
   simp only [readUGo, this, if_false]
-  cases readUGo t (acc * 128 + b % 128) with
-  | error e => rfl
-  | ok p => rfl
 
 theorem readUGo_cons_last (b : Nat) (t : Bytes) (acc : Nat) (h : b < 128) :
     readUGo (b :: t) acc = .ok (acc * 128 + b % 128, 1) := by
@@ -32,105 +28,6 @@ theorem wellFlagged_cons (b : Nat) (t : Bytes) (h : wellFlagged (b :: t) = true)
     simp only [wellFlagged, Bool.and_eq_true, decide_eq_true_eq] at h
     exact ⟨by simp, h.1.1, h.1.2, h.2⟩
 
-/-- the signed reader on what the signed writer produced, with anything after it -/
-theorem readS_writeSRaw (m : Nat) (neg : Bool) (rest : Bytes) :
-    readS (writeSRaw m neg ++ rest) 0 = .ok (applySign neg m, (writeSRaw m neg).length, neg) := by
-  have hr := readUGo_encU m rest
-  have hc := canonicalU_encU m
-  unfold canonicalU at hc
-  simp only [Bool.and_eq_true] at hc
-  have hw := hc.1
-  unfold writeSRaw
-  rw [writeURaw_eq]
-  cases hs : encU m with
-  | nil => exact absurd hs (encU_ne_nil m)
-  | cons b t =>
-    rw [hs] at hr hw
-    simp only []
-    by_cases h6 : b / 64 % 2 = 1
-    · -- a further leading septet carries the sign
-      simp only [h6, if_true]
-      cases neg
-      · simp only [Bool.false_eq_true, if_false, readS, List.drop_zero, List.cons_append]
-        have : ¬ (128 / 128 % 2 = 0) := by decide
-        simp only [this, if_false]
-        have e : (128 : Nat) % 64 = 0 := by decide
-        rw [e]
-        simp only [List.cons_append] at hr
-        rw [hr]
-        simp [applySign]; omega
-      · simp only [if_true, readS, List.drop_zero, List.cons_append]
-        have e0 : (128 : Nat) ||| 64 = 192 := by decide
-        have e1 : Nat.lor 128 64 = 192 := by decide
-        simp only [e1]
-        have : ¬ (192 / 128 % 2 = 0) := by decide
-        simp only [this, if_false]
-        have e : (192 : Nat) % 64 = 0 := by decide
-        rw [e]
-        simp only [List.cons_append] at hr
-        rw [hr]
-        simp [applySign]; omega
-    · have h6' : b / 64 % 2 = 0 := by omega
-      simp only [h6, if_false]
-      rcases wellFlagged_cons b t hw with ⟨ht, hb⟩ | ⟨ht, hb1, hb2, _⟩
-      · -- single octet below 64
-        subst ht
-        have hm : m = b := by
-          have := decGo_encU m
-          rw [hs] at this
-          simp [decGo] at this; omega
-        cases neg
-        · simp only [Bool.false_eq_true, if_false, readS, List.drop_zero, List.cons_append]
-          have : b / 128 % 2 = 0 := by omega
-          simp only [this, if_true]
-          simp [applySign, hm]; omega
-        · simp only [if_true, readS, List.drop_zero, List.cons_append]
-          have e1 : Nat.lor b 64 = b + 64 := lor_sign b (by omega) h6'
-          simp only [e1]
-          have : (b + 64) / 128 % 2 = 0 := by omega
-          simp only [this, if_true]
-          have e2 : (b + 64) / 64 % 2 = 1 := by omega
-          have e3 : (b + 64) % 64 = b := by omega
-          rw [e2, e3]
-          simp [applySign, hm]
-      · -- several octets, the first one has room for the sign
-        simp only [List.cons_append] at hr
-        rw [readUGo_cons_flag b (t ++ rest) 0 ⟨hb1, hb2⟩] at hr
-        have hacc : 0 * 128 + b % 128 = b % 64 := by omega
-        rw [hacc] at hr
-        cases neg
-        · simp only [Bool.false_eq_true, if_false, readS, List.drop_zero, List.cons_append]
-          have : ¬ (b / 128 % 2 = 0) := by omega
-          simp only [this, if_false]
-          cases hq : readUGo (t ++ rest) (b % 64) with
-          | error e => rw [hq] at hr; simp at hr
-          | ok p =>
-            obtain ⟨v, n⟩ := p
-            rw [hq] at hr
-            simp only [Except.ok.injEq, Prod.mk.injEq] at hr
-            simp [applySign, hr.1, h6']
-            simp only [List.length_cons] at hr; omega
-        · simp only [if_true, readS, List.drop_zero, List.cons_append]
-          have e1 : Nat.lor b 64 = b + 64 := lor_sign b hb2 h6'
-          simp only [e1]
-          have : ¬ ((b + 64) / 128 % 2 = 0) := by omega
-          simp only [this, if_false]
-          have e3 : (b + 64) % 64 = b % 64 := by omega
-          have e2 : (b + 64) / 64 % 2 = 1 := by omega
-          rw [e3, e2]
-          cases hq : readUGo (t ++ rest) (b % 64) with
-          | error e => rw [hq] at hr; simp at hr
-          | ok p =>
-            obtain ⟨v, n⟩ := p
-            rw [hq] at hr
-            simp only [Except.ok.injEq, Prod.mk.injEq] at hr
-            simp [applySign, hr.1]
-            simp only [List.length_cons] at hr; omega
-
-
-
-/-! ## canonical signed form: produced by the writer, and only by the writer -/
-
 theorem readUGo_wellFlagged (t rest : Bytes) (acc : Nat) (h : wellFlagged t = true) :
     readUGo (t ++ rest) acc = .ok (decGo t acc, t.length) := by
   obtain ⟨pre, l, he, hf, hl⟩ := wellFlagged_split t h
@@ -144,60 +41,148 @@ theorem encU_small {m : Nat} (h : m < 128) : encU m = [m] := by
   have h1 : m % 128 = m := by omega
   simp [encU, h0, h1, encHi_zero]
 
-theorem canonicalS_writeSRaw (m : Nat) (neg : Bool) : canonicalS (writeSRaw m neg) = true := by
+/-- the reader on a first octet `f` (sign in bit 6, six magnitude bits) followed by `t` -/
+theorem readS_cons_flag (f : Nat) (t : Bytes) (h : 128 ≤ f ∧ f < 256) :
+    readS (f :: t) 0 = readSRest (f / 64 % 2 = 1) 0 (readUGo t (f % 64)) := by
+  have : ¬ (f / 128 % 2 = 0) := by omega
+  simp only [readS, List.drop_zero, this, if_false]
+
+theorem readS_cons_last (f : Nat) (t : Bytes) (h : f < 128) :
+    readS (f :: t) 0 = .ok (applySign (f / 64 % 2 = 1) (f % 64), 1, decide (f / 64 % 2 = 1)) := by
+  have : f / 128 % 2 = 0 := by omega
+  simp [readS, this]
+
+/-- shape of the unsigned writer's output: value, flags, first octet -/
+theorem encU_shape (m : Nat) : ∃ b t, encU m = b :: t ∧ wellFlagged (b :: t) = true
+    ∧ (t ≠ [] → b ≠ 128) ∧ decGo (b :: t) 0 = m := by
   have hc := canonicalU_encU m
   unfold canonicalU at hc
   simp only [Bool.and_eq_true, Bool.or_eq_true, beq_iff_eq, bne_iff_ne, ne_eq] at hc
-  have hw := hc.1
-  unfold writeSRaw
-  rw [writeURaw_eq]
   cases hs : encU m with
   | nil => exact absurd hs (encU_ne_nil m)
   | cons b t =>
-    rw [hs] at hw hc
-    simp only []
-    by_cases h6 : b / 64 % 2 = 1
-    · simp only [h6, if_true]
-      have hb : b < 256 := by
-        rcases wellFlagged_cons b t hw with ⟨_, hb⟩ | ⟨_, _, hb, _⟩ <;> omega
+    rw [hs] at hc
+    refine ⟨b, t, rfl, hc.1, ?_, by rw [← hs]; exact decGo_encU m⟩
+    intro ht
+    rcases hc.2 with h2 | h2
+    · cases t with
+      | nil => exact absurd rfl ht
+      | cons c t' => simp at h2
+    · simpa using h2
+
+/-- the signed reader on what the signed writer produced, with anything after it -/
+theorem readS_writeSRaw (m : Nat) (neg : Bool) (rest : Bytes) :
+    readS (writeSRaw m neg ++ rest) 0 = .ok (applySign neg m, (writeSRaw m neg).length, neg) := by
+  obtain ⟨b, t, hs, hw, _, hm⟩ := encU_shape m
+  have hr : readUGo (b :: t ++ rest) 0 = .ok (m, (b :: t).length) := by
+    rw [readUGo_wellFlagged _ _ _ hw, hm]
+  unfold writeSRaw
+  rw [writeURaw_eq, hs]
+  have hb256 : b < 256 := by
+    rcases wellFlagged_cons b t hw with ⟨_, hb⟩ | ⟨_, _, hb, _⟩ <;> omega
+  by_cases h6 : b / 64 % 2 = 1
+  · -- a further leading septet carries the sign
+    simp only [signRoom, h6, if_true]
+    cases neg
+    · simp only [setSign, List.cons_append]
+      rw [readS_cons_flag 128 _ (by omega)]
+      have e : (128 : Nat) % 64 = 0 := by decide
+      rw [e]
+      simp only [List.cons_append] at hr
+      rw [hr]
+      simp [applySign, readSRest]; omega
+    · have e1 : Nat.lor 128 64 = 192 := by decide
+      simp only [setSign, List.cons_append, e1]
+      rw [readS_cons_flag 192 _ (by omega)]
+      have e : (192 : Nat) % 64 = 0 := by decide
+      rw [e]
+      simp only [List.cons_append] at hr
+      rw [hr]
+      simp [applySign, readSRest]; omega
+  · have h6' : b / 64 % 2 = 0 := by omega
+    simp only [signRoom, h6, if_false]
+    rcases wellFlagged_cons b t hw with ⟨ht, hb⟩ | ⟨ht, hb1, hb2, hwt⟩
+    · -- single octet below 64
+      subst ht
+      have hmb : m = b := by simp [decGo] at hm; omega
       cases neg
-      · simp only [Bool.false_eq_true, if_false, canonicalS]
-        have : wellFlagged (128 :: b :: t) = true := by simp [wellFlagged, hw]
-        simp [this, h6]
-      · have e1 : Nat.lor 128 64 = 192 := by decide
-        simp only [if_true, canonicalS, e1]
-        have : wellFlagged (192 :: b :: t) = true := by simp [wellFlagged, hw]
-        simp [this, h6]
-    · have h6' : b / 64 % 2 = 0 := by omega
-      simp only [h6, if_false]
-      rcases wellFlagged_cons b t hw with ⟨ht, hb⟩ | ⟨ht, hb1, hb2, hwt⟩
-      · subst ht
+      · simp only [setSign, List.cons_append]
+        rw [readS_cons_last b _ hb]
+        have e3 : b % 64 = b := by omega
+        rw [h6', e3]
+        simp [applySign, hmb]
+      · have e1 : Nat.lor b 64 = b + 64 := lor_sign b (by omega) h6'
+        simp only [setSign, List.cons_append, e1]
+        rw [readS_cons_last (b + 64) _ (by omega)]
+        have e2 : (b + 64) / 64 % 2 = 1 := by omega
+        have e3 : (b + 64) % 64 = b := by omega
+        rw [e2, e3]
+        simp [applySign, hmb]
+    · -- several octets, the first one has room for the sign
+      simp only [List.cons_append] at hr
+      rw [readUGo_cons_flag b (t ++ rest) 0 ⟨hb1, hb2⟩] at hr
+      have hacc : 0 * 128 + b % 128 = b % 64 := by omega
+      rw [hacc] at hr
+      cases hq : readUGo (t ++ rest) (b % 64) with
+      | error e => rw [hq] at hr; simp [bump] at hr
+      | ok p =>
+        obtain ⟨v, n⟩ := p
+        rw [hq] at hr
+        simp only [bump, Except.ok.injEq, Prod.mk.injEq, List.length_cons] at hr
         cases neg
-        · simp [canonicalS, wellFlagged, hb]
-        · have e1 : Nat.lor b 64 = b + 64 := lor_sign b (by omega) h6'
-          simp only [if_true, e1, canonicalS, wellFlagged]
-          have : b + 64 < 128 := by omega
-          simp [this]
-      · have hne : b ≠ 128 := by
-          rcases hc.2 with h2 | h2
-          · cases t with
-            | nil => exact absurd rfl ht
-            | cons c t' => simp at h2
-          · simpa using h2
-        cases t with
-        | nil => exact absurd rfl ht
-        | cons c t' =>
-          cases neg
-          · simp only [Bool.false_eq_true, if_false, canonicalS, hw, Bool.true_and]
-            have : ¬ (b % 64 = 0) := by omega
-            simp [this]
-          · have e1 : Nat.lor b 64 = b + 64 := lor_sign b hb2 h6'
-            simp only [if_true, e1, canonicalS]
-            have h1 : wellFlagged (b + 64 :: c :: t') = true := by
-              simp only [wellFlagged, Bool.and_eq_true, decide_eq_true_eq]
-              exact ⟨⟨by omega, by omega⟩, hwt⟩
-            have : ¬ ((b + 64) % 64 = 0) := by omega
-            simp [h1, this]
+        · simp only [setSign, List.cons_append]
+          rw [readS_cons_flag b _ ⟨hb1, hb2⟩, hq, h6']
+          simp [applySign, readSRest, hr.1]; omega
+        · have e1 : Nat.lor b 64 = b + 64 := lor_sign b hb2 h6'
+          simp only [setSign, List.cons_append, e1]
+          rw [readS_cons_flag (b + 64) _ (by omega)]
+          have e3 : (b + 64) % 64 = b % 64 := by omega
+          have e2 : (b + 64) / 64 % 2 = 1 := by omega
+          rw [e3, e2, hq]
+          simp [applySign, readSRest, hr.1]; omega
+
+/-! ## canonical signed form: produced by the writer, and only by the writer -/
+
+theorem canonicalS_writeSRaw (m : Nat) (neg : Bool) : canonicalS (writeSRaw m neg) = true := by
+  obtain ⟨b, t, hs, hw, hne, _⟩ := encU_shape m
+  unfold writeSRaw
+  rw [writeURaw_eq, hs]
+  have hb256 : b < 256 := by
+    rcases wellFlagged_cons b t hw with ⟨_, hb⟩ | ⟨_, _, hb, _⟩ <;> omega
+  by_cases h6 : b / 64 % 2 = 1
+  · simp only [signRoom, h6, if_true]
+    cases neg
+    · have : wellFlagged (128 :: b :: t) = true := by simp [wellFlagged, hw]
+      simp [setSign, canonicalS, this, h6]
+    · have e1 : Nat.lor 128 64 = 192 := by decide
+      have e1' : 128 ||| 64 = 192 := e1
+      have : wellFlagged (192 :: b :: t) = true := by simp [wellFlagged, hw]
+      simp [setSign, canonicalS, e1, e1', this, h6]
+  · have h6' : b / 64 % 2 = 0 := by omega
+    simp only [signRoom, h6, if_false]
+    rcases wellFlagged_cons b t hw with ⟨ht, hb⟩ | ⟨ht, hb1, hb2, hwt⟩
+    · subst ht
+      cases neg
+      · simp [setSign, canonicalS, wellFlagged, hb]
+      · have e1 : Nat.lor b 64 = b + 64 := lor_sign b (by omega) h6'
+        have e1' : b ||| 64 = b + 64 := e1
+        have : b + 64 < 128 := by omega
+        simp [setSign, e1, e1', canonicalS, wellFlagged, this]
+    · have hb128 : b ≠ 128 := hne ht
+      cases t with
+      | nil => exact absurd rfl ht
+      | cons c t' =>
+        cases neg
+        · have : ¬ (b % 64 = 0) := by omega
+          simp [setSign, canonicalS, hw, this]
+        · have e1 : Nat.lor b 64 = b + 64 := lor_sign b hb2 h6'
+          have e1' : b ||| 64 = b + 64 := e1
+          have h1 : wellFlagged ((b + 64) :: c :: t') = true := by
+            simp only [wellFlagged, Bool.and_eq_true, decide_eq_true_eq]
+            exact ⟨⟨by omega, by omega⟩, hwt⟩
+          have : ¬ ((b + 64) % 64 = 0) := by omega
+          have h3 : ¬ (b % 64 = 0) := by omega
+          simp [setSign, e1, e1', canonicalS, h1, this, h3]
 
 /-- sign and magnitude an octet string reads as -/
 def sNeg : Bytes → Bool
@@ -222,22 +207,22 @@ theorem canonicalS_unique (bs rest : Bytes) (h : canonicalS bs = true) :
     rcases wellFlagged_cons b t hw with ⟨ht, hb⟩ | ⟨ht, hb1, hb2, hwt⟩
     · subst ht
       constructor
-      · have : b / 128 % 2 = 0 := by omega
-        simp [readS, this, sNeg, sMag, decGo]
+      · simp only [List.cons_append, List.nil_append]
+        rw [readS_cons_last b _ hb]
+        simp [sNeg, sMag, decGo]
       · have hm : b % 64 < 128 := by omega
-        unfold writeSRaw
-        rw [writeURaw_eq, encU_small hm]
-        have : ¬ (b % 64 / 64 % 2 = 1) := by omega
-        simp only [sMag, decGo, List.foldl_nil, this, if_false, sNeg]
+        have h6 : ¬ (b % 64 / 64 % 2 = 1) := by omega
+        simp only [writeSRaw, sMag, decGo, List.foldl_nil, writeURaw_eq, encU_small hm, signRoom, h6,
+          if_false, sNeg]
         by_cases hn : b / 64 % 2 = 1
         · have e1 : Nat.lor (b % 64) 64 = b % 64 + 64 := lor_sign _ (by omega) (by omega)
-          simp [hn, e1]; omega
-        · simp [hn]; omega
+          have e1' : (b % 64) ||| 64 = b % 64 + 64 := e1
+          simp [hn, setSign, e1, e1']; omega
+        · simp [hn, setSign]; omega
     · constructor
-      · have : ¬ (b / 128 % 2 = 0) := by omega
-        simp only [List.cons_append, readS, List.drop_zero, this, if_false,
-          readUGo_wellFlagged t rest (b % 64) hwt, sNeg, sMag, List.length_cons]
-        simp; omega
+      · simp only [List.cons_append]
+        rw [readS_cons_flag b _ ⟨hb1, hb2⟩, readUGo_wellFlagged t rest (b % 64) hwt]
+        simp [sNeg, sMag, readSRest]; omega
       · cases t with
         | nil => exact absurd rfl ht
         | cons c t' =>
@@ -253,13 +238,12 @@ theorem canonicalS_unique (bs rest : Bytes) (h : canonicalS bs = true) :
               have : c ≠ 128 := by omega
               simp [hwt, this]
             have henc := encU_decGo (c :: t') hcan
-            unfold writeSRaw
-            rw [writeURaw_eq]
-            simp only [sMag, ha, henc, hc6, if_true, sNeg]
+            simp only [writeSRaw, writeURaw_eq, sMag, ha, henc, signRoom, hc6, if_true, sNeg]
             by_cases hn : b / 64 % 2 = 1
             · have e1 : Nat.lor 128 64 = 192 := by decide
-              simp [hn, e1]; omega
-            · simp [hn]; omega
+              have e1' : 128 ||| 64 = 192 := e1
+              simp [hn, setSign, e1, e1']; omega
+            · simp [hn, setSign]; omega
           · have ha64 : b % 64 < 64 := Nat.mod_lt _ (by omega)
             have hcan : canonicalU ((128 + b % 64) :: c :: t') = true := by
               unfold canonicalU
@@ -267,19 +251,17 @@ theorem canonicalS_unique (bs rest : Bytes) (h : canonicalS bs = true) :
                 simp only [wellFlagged, Bool.and_eq_true, decide_eq_true_eq]
                 exact ⟨⟨by omega, by omega⟩, hwt⟩
               have : ¬ (128 + b % 64 = 128) := by omega
-              simp [h1, this]
+              simp [h1, this, ha]
             have henc := encU_decGo _ hcan
             have hd : decGo ((128 + b % 64) :: c :: t') 0 = decGo (c :: t') (b % 64) := by
               rw [decGo_cons]; congr 1; omega
             rw [hd] at henc
-            unfold writeSRaw
-            rw [writeURaw_eq]
             have h6 : ¬ ((128 + b % 64) / 64 % 2 = 1) := by omega
-            simp only [sMag, henc, h6, if_false, sNeg]
+            simp only [writeSRaw, writeURaw_eq, sMag, henc, signRoom, h6, if_false, sNeg]
             by_cases hn : b / 64 % 2 = 1
-            · have e1 : Nat.lor (128 + b % 64) 64 = 128 + b % 64 + 64 :=
-                lor_sign _ (by omega) (by omega)
-              simp [hn, e1]; omega
-            · simp [hn]; omega
+            · have e1 : Nat.lor (128 + b % 64) 64 = 128 + b % 64 + 64 := lor_sign _ (by omega) (by omega)
+              have e1' : (128 + b % 64) ||| 64 = 128 + b % 64 + 64 := e1
+              simp [hn, setSign, e1, e1']; omega
+            · simp [hn, setSign]; omega
 
 end Dmr.Mbxml
